@@ -247,6 +247,8 @@ class ManifestContext:
             index = (index + 1) % len(periods)
             if index == 0:
                 num_loops += 1
+        if not self.periods:
+            raise ValueError('None of the Periods is available yet')
         if self.options.segmentTimeline:
             self.periods[-1].duration = None
 
